@@ -30,7 +30,7 @@ SG = P + "simple_grammar.SimpleGrammar"
 NTT = TDict(TStr, TVal)  # names -> type objects (None = any type)
 DATA = TDict(TStr, TVal)  # names -> values
 NAMES = TSet(TStr)
-NSMAP = TDict(TStr, TStr)
+NSMAP = TDict(TStr, TVal)  # namespace maps: a name or a list of names per key (opaque)
 NAMELIST = TList(TStr)
 
 
@@ -150,10 +150,21 @@ def in_list(L, x):
     return z3.Exists([i], z3.And(0 <= i, i < L.n, L.elems[i] == x))
 
 
+def member_fn(v):
+    """Membership predicate of an iterable-of-names argument (set/dict view, list view, or a concrete tuple at a call site)."""
+    if isinstance(v, tuple):
+        return lambda x: z3.Or(*[x == TStr.embed(None, e) for e in v]) if v else z3.BoolVal(False)
+    if hasattr(v.obj, "member"):
+        return lambda x: v.obj.member[x]
+    return lambda x: in_list(v, x)
+
+
 def seq_of(v):
     """(length, element-at) of a ``*names`` argument: a concrete tuple at call sites, a list when symbolic."""
     if isinstance(v, tuple):
         def at(i):
+            if not v:
+                return z3.Const("no!name", TStr.sort())
             t = TStr.embed(None, v[-1])
             for j in range(len(v) - 2, -1, -1):
                 t = z3.If(i == j, TStr.embed(None, v[j]), t)
@@ -168,6 +179,7 @@ def wfg(g):
     return [
         ("wfg:required-names-are-elements", subset_of_keys(req(g), ntt(g))),
         ("wfg:defaults-are-elements", subset_of_keys(dfl(g), ntt(g))),
+        ("wfg:name-is-not-empty", _nonempty(g.name)),
         ("wfg:defaults-bound-to-the-grammar", z3.BoolVal(g._defaults._Defaults__grammar.ref == g.ref)),
         ("wfg:required-names-bound-to-the-grammar", z3.BoolVal(g._required_names._RequiredNames__grammar.ref == g.ref)),
     ]
@@ -181,7 +193,9 @@ TYPE_NDARRAY = type_const("numpy.ndarray")
 def type_facts():
     """Class objects are type objects, distinct from None and from each other."""
     cs = [TYPE_DICT, TYPE_MAPPING, TYPE_NDARRAY]
-    return [("types:class-objects", z3.And(z3.Distinct(val_none, *cs), *[is_type(x) for x in cs]))]
+    v = z3.Const("v!tf", ValS)
+    return [("types:class-objects", z3.And(z3.Distinct(val_none, *cs), *[is_type(x) for x in cs])),
+            ("types:type-of", z3.ForAll([v], z3.And(is_type(type_of(v)), type_of(v) != val_none, is_instance(v, type_of(v))), patterns=[type_of(v)]))]
 
 
 def type_ok(t):
@@ -219,9 +233,9 @@ def kept(g0, g1, *changed):
     return out
 
 
-def own_fields_kept(g0, g1, types=False):
+def own_fields_kept(g0, g1, types=False, converter=True):
     """Fields of the grammar object itself (for the SimpleGrammar primitives, which do not touch the parts)."""
-    out = [("kept:name", g1.name == g0.name), ("kept:data-converter", g1._data_converter == g0._data_converter),
+    out = [("kept:name", g1.name == g0.name)] + ([("kept:data-converter", g1._data_converter == g0._data_converter)] if converter else []) + [
            ("kept:namespaces", z3.And(same_dict(g1.to_namespaced, g0.to_namespaced), same_dict(g1.from_namespaced, g0.from_namespaced))),
            ("kept:parts", z3.BoolVal(g1._defaults.ref == g0._defaults.ref and g1._required_names.ref == g0._required_names.ref))]
     if types:
@@ -533,6 +547,7 @@ class SGRenameElement(_SG):
 class SGClear(_SG):
     targets = (SG + "._clear",)
     modifies = ("self",)
+    inline_ok = True  # called by clear() from __init__ on an object whose fields do not exist yet
 
     def ensures(self, c):
         return [("no-element", ntt(c.new.self).n == 0)] + own_fields_kept(c.old.self, c.new.self)
@@ -569,7 +584,7 @@ class SGCheckType(_SG):
 def updated_types(t0, t1, src, excluded=None):
     """t1 = t0 overwritten by the (generalised) types of ``src`` for the names that are not excluded."""
     k = kq("k!ut")
-    taken = (lambda x: z3.And(src.has(x), z3.Not(excluded.member[x]))) if excluded is not None else (lambda x: src.has(x))
+    taken = (lambda x: z3.And(src.has(x), z3.Not(member_fn(excluded)(x)))) if excluded is not None else (lambda x: src.has(x))
     return [("names", z3.ForAll([k], t1.has(k) == z3.Or(t0.has(k), taken(k)))),
             ("new-types", z3.ForAll([k], z3.Implies(taken(k), t1.get(k) == stored_type(src.get(k))))),
             ("other-types-kept", z3.ForAll([k], z3.Implies(z3.And(t0.has(k), z3.Not(taken(k))), t1.get(k) == t0.get(k))))]
@@ -577,7 +592,7 @@ def updated_types(t0, t1, src, excluded=None):
 
 def all_types_ok(src, excluded=None):
     k = kq("k!ato")
-    taken = (lambda x: z3.And(src.has(x), z3.Not(excluded.member[x]))) if excluded is not None else (lambda x: src.has(x))
+    taken = (lambda x: z3.And(src.has(x), z3.Not(member_fn(excluded)(x)))) if excluded is not None else (lambda x: src.has(x))
     return z3.ForAll([k], z3.Implies(taken(k), type_ok(src.get(k))))
 
 
@@ -603,9 +618,542 @@ def _update_inv(c, k):
     src, ex = elements(c.old.grammar), c.old.excluded_names
     x = kq("k!ui")
     pos = c.seq.pos
-    done = lambda y: z3.And(src.has(y), pos[y] < k, z3.Not(ex.member[y]))  # noqa: E731
+    done = lambda y: z3.And(src.has(y), pos[y] < k, z3.Not(member_fn(ex)(y)))  # noqa: E731
     return [("names", z3.ForAll([x], t.has(x) == z3.Or(t0.has(x), done(x)))),
             ("new-types", z3.ForAll([x], z3.Implies(done(x), t.get(x) == stored_type(src.get(x))))),
             ("other-types-kept", z3.ForAll([x], z3.Implies(z3.And(t0.has(x), z3.Not(done(x))), t.get(x) == t0.get(x)))),
             ("checked", z3.ForAll([x], z3.Implies(done(x), type_ok(src.get(x))))),
             ] + own_fields_kept(c.old.self, c.new.self)
+
+
+@register
+class SGUpdateFromTypes(_SG):
+    targets = (SG + "._update_from_types",)
+    params = {"names_to_types": NTT, "merge": TBool}
+    modifies = ("self",)
+    raises = {"ValueError": lambda c: c.old.merge,
+              "TypeError": lambda c: z3.And(z3.Not(c.old.merge), z3.Not(all_types_ok(c.old.names_to_types)))}
+
+    def requires(self, c):
+        return type_facts()
+
+    def ensures(self, c):
+        return updated_types(ntt(c.old.self), ntt(c.new.self), c.old.names_to_types) + own_fields_kept(c.old.self, c.new.self)
+
+
+@register
+class SGUpdateFromNames(_SG):
+    """Every given name becomes (or stays) an element, bound to the NumPy array type."""
+
+    targets = (SG + "._update_from_names",)
+    params = {"names": NAMELIST, "merge": TBool}
+    modifies = ("self",)
+    raises = {"ValueError": lambda c: c.old.merge}
+
+    def requires(self, c):
+        return type_facts()
+
+    def ensures(self, c):
+        t0, t1 = ntt(c.old.self), ntt(c.new.self)
+        k = kq()
+        L = c.old.names
+        return [("names", z3.ForAll([k], t1.has(k) == z3.Or(t0.has(k), in_list(L, k)))),
+                ("new-types", z3.ForAll([k], z3.Implies(in_list(L, k), t1.get(k) == TYPE_NDARRAY))),
+                ("other-types-kept", z3.ForAll([k], z3.Implies(z3.And(t0.has(k), z3.Not(in_list(L, k))), t1.get(k) == t0.get(k)))),
+                ] + own_fields_kept(c.old.self, c.new.self)
+
+
+@register
+class SGUpdate(_SG):
+    """Elements of another grammar, except the excluded names (the parts are handled by BaseGrammar.update)."""
+
+    targets = (SG + "._update",)
+    params = {"grammar": TObj(SG), "excluded_names": NAMES, "merge": TBool}
+    modifies = ("self",)
+    raises = {"ValueError": lambda c: c.old.merge,
+              "TypeError": lambda c: z3.And(z3.Not(c.old.merge), z3.Not(all_types_ok(ntt(c.old.grammar), c.old.excluded_names)))}
+
+    def requires(self, c):
+        return type_facts()
+
+    def ensures(self, c):
+        return updated_types(ntt(c.old.self), ntt(c.new.self), ntt(c.old.grammar), c.old.excluded_names) + own_fields_kept(c.old.self, c.new.self) + \
+            own_fields_kept(c.old.grammar, c.new.grammar, types=True)
+
+
+def types_accept(types, data):
+    k = kq("k!ta")
+    return z3.ForAll([k], z3.Implies(z3.And(types.member[k], data.member[k], types.vals[k] != val_none), is_instance(data.vals[k], types.vals[k])))
+
+
+@register
+class SGValidate(_SG):
+    """True exactly when every present element that has a type holds an instance of that type; read-only."""
+
+    targets = (SG + "._validate",)
+    params = {"data": DATA, "error_message": TMsg()}
+    returns = TBool
+    loops = {0: LoopSpec(anchor="self.__names_to_types.items()", inv=lambda c, k: _validate_inv(c, k))}
+
+    def ensures(self, c):
+        return [("value", c.result == types_accept(ntt(c.old.self), c.old.data))]
+
+
+def _validate_inv(c, k):
+    t, d = ntt(c.old.self), c.old.data
+    i = z3.Int("i!vi")
+    key = lambda j: c.seq.keys[j]  # noqa: E731
+    ok = lambda j: z3.Implies(z3.And(d.member[key(j)], t.vals[key(j)] != val_none), is_instance(d.vals[key(j)], t.vals[key(j)]))  # noqa: E731
+    return [("verdict-so-far", c.locals["data_is_valid"] == z3.ForAll([i], z3.Implies(z3.And(0 <= i, i < k), ok(i))))]
+
+
+@register
+class SGRestrictTo(_SG):
+    """Only the given names remain, with their types."""
+
+    targets = (SG + "._restrict_to",)
+    params = {"names": NAMELIST}
+    modifies = ("self",)
+    loops = {0: LoopSpec(anchor="self.__names_to_types.keys() - names", modifies=("self",), inv=lambda c, k: _restrict_inv(c, k))}
+
+    def ensures(self, c):
+        t0, t1 = ntt(c.old.self), ntt(c.new.self)
+        k = kq()
+        return [("names", z3.ForAll([k], t1.has(k) == z3.And(t0.has(k), in_list(c.old.names, k)))),
+                ("types-kept", z3.ForAll([k], z3.Implies(t1.has(k), t1.get(k) == t0.get(k)))),
+                ] + own_fields_kept(c.old.self, c.new.self)
+
+
+def _restrict_inv(c, k):
+    t0, t = ntt(c.old.self), ntt(c.new.self)
+    x = kq("k!ri")
+    pos = c.seq.pos
+    removed = lambda y: z3.And(t0.has(y), z3.Not(in_list(c.old.names, y)), pos[y] < k)  # noqa: E731
+    return [("names", z3.ForAll([x], t.has(x) == z3.And(t0.has(x), z3.Not(removed(x))))),
+            ("types-kept", z3.ForAll([x], z3.Implies(t.has(x), t.get(x) == t0.get(x)))),
+            ] + own_fields_kept(c.old.self, c.new.self)
+
+
+# ---------------------------------------------------------------------------- BaseGrammar template methods (SimpleGrammar instantiation)
+PARTS = ("self", "self._defaults", "self._required_names")
+
+
+class _BG(Contract):
+    prop = ("C15",)
+    self_class = SG
+    modifies = PARTS
+
+    def requires(self, c):
+        return wfg(c.old.self) + type_facts()
+
+
+def removed_from_dict(d1, d0, gone):
+    """d1 = d0 without the keys satisfying ``gone``, values kept."""
+    k = kq("k!rd")
+    return z3.And(z3.ForAll([k], d1.has(k) == z3.And(d0.has(k), z3.Not(gone(k)))), z3.ForAll([k], z3.Implies(d1.has(k), d1.get(k) == d0.get(k))))
+
+
+def removed_from_set(s1, s0, gone):
+    k = kq("k!rs")
+    return z3.ForAll([k], s1.member[k] == z3.And(s0.member[k], z3.Not(gone(k))))
+
+
+def added_to_set(s1, s0, added):
+    k = kq("k!as")
+    return z3.ForAll([k], s1.member[k] == z3.Or(s0.member[k], added(k)))
+
+
+@register
+class BGDelitem(_BG):
+    """The element disappears from the elements, the required names and the defaults; nothing else changes."""
+
+    targets = (BG + ".__delitem__",)
+    params = {"name": TStr}
+    raises = {"KeyError": lambda c: z3.Not(ntt(c.old.self).has(c.old.name))}
+
+    def ensures(self, c):
+        g0, g1 = c.old.self, c.new.self
+        gone = lambda k: k == c.old.name  # noqa: E731
+        return wfg(g1) + [("element-removed", removed_from_dict(ntt(g1), ntt(g0), gone)),
+                          ("no-longer-required", removed_from_set(req(g1), req(g0), gone)),
+                          ("default-removed", removed_from_dict(dfl(g1), dfl(g0), gone)),
+                          ("size", ntt(g1).n == ntt(g0).n - 1)] + kept(g0, g1, "types", "required", "defaults")
+
+
+@register
+class BGClear(_BG):
+    targets = (BG + ".clear",)
+    inline_ok = True  # called by __init__ on an object whose parts do not exist yet
+
+    def requires(self, c):
+        return [("name-is-not-empty", _nonempty(c.old.self.name))]
+
+    def ensures(self, c):
+        g0, g1 = c.old.self, c.new.self
+        return wfg(g1) + [("no-element", ntt(g1).n == 0), ("no-required-name", req(g1).n == 0), ("no-default", dfl(g1).n == 0),
+                          ("no-namespace", z3.And(g1.to_namespaced.n == 0, g1.from_namespaced.n == 0))] + kept(g0, g1, "types", "required", "defaults", "namespaces")
+
+
+@register
+class BGUpdateFromTypes(_BG):
+    """The given names become elements with the given types, and required; the other elements, the other required
+    names and the defaults are unchanged."""
+
+    targets = (BG + ".update_from_types",)
+    params = {"names_to_types": NTT, "merge": TBool}
+    raises = {"ValueError": lambda c: z3.And(c.old.names_to_types.n != 0, c.old.merge),
+              "TypeError": lambda c: z3.And(c.old.names_to_types.n != 0, z3.Not(c.old.merge), z3.Not(all_types_ok(c.old.names_to_types)))}
+
+    def ensures(self, c):
+        g0, g1 = c.old.self, c.new.self
+        src = c.old.names_to_types
+        return wfg(g1) + updated_types(ntt(g0), ntt(g1), src) + [("required", added_to_set(req(g1), req(g0), lambda k: src.has(k)))] + kept(g0, g1, "types", "required")
+
+
+@register
+class BGUpdateFromNames(_BG):
+    targets = (BG + ".update_from_names",)
+    params = {"names": NAMELIST, "merge": TBool}
+    raises = {"ValueError": lambda c: z3.And(c.old.names.n != 0, c.old.merge)}
+
+    def ensures(self, c):
+        g0, g1 = c.old.self, c.new.self
+        t0, t1 = ntt(g0), ntt(g1)
+        L = c.old.names
+        k = kq()
+        return wfg(g1) + [("names", z3.ForAll([k], t1.has(k) == z3.Or(t0.has(k), in_list(L, k)))),
+                          ("new-types", z3.ForAll([k], z3.Implies(in_list(L, k), t1.get(k) == TYPE_NDARRAY))),
+                          ("other-types-kept", z3.ForAll([k], z3.Implies(z3.And(t0.has(k), z3.Not(in_list(L, k))), t1.get(k) == t0.get(k)))),
+                          ("required", added_to_set(req(g1), req(g0), lambda x: in_list(L, x)))] + kept(g0, g1, "types", "required")
+
+
+@register
+class BGUpdateFromData(_BG):
+    """Every name of the data becomes a required element whose type is the type of its value."""
+
+    targets = (BG + ".update_from_data",)
+    params = {"data": DATA, "merge": TBool}
+    raises = {"ValueError": lambda c: z3.And(c.old.data.n != 0, c.old.merge)}
+
+    def ensures(self, c):
+        g0, g1 = c.old.self, c.new.self
+        t0, t1 = ntt(g0), ntt(g1)
+        d = c.old.data
+        k = kq()
+        return wfg(g1) + [("names", z3.ForAll([k], t1.has(k) == z3.Or(t0.has(k), d.has(k)))),
+                          ("new-types", z3.ForAll([k], z3.Implies(d.has(k), t1.get(k) == stored_type(type_of(d.get(k)))))),
+                          ("other-types-kept", z3.ForAll([k], z3.Implies(z3.And(t0.has(k), z3.Not(d.has(k))), t1.get(k) == t0.get(k)))),
+                          ("required", added_to_set(req(g1), req(g0), lambda x: d.has(x))),
+                          ("data-is-then-valid", z3.Implies(z3.ForAll([k], z3.Implies(d.has(k), type_of(d.get(k)) != TYPE_DICT)), types_accept(t1, d)))] + kept(g0, g1, "types", "required")
+
+
+@register
+class BGValidate(_BG):
+    """Validation <=> definition: InvalidDataError exactly when a required name is missing or a present element
+    with a type does not hold an instance of it; the grammar is not changed."""
+
+    targets = (BG + ".validate",)
+    params = {"data": DATA, "raise_exception": TBool}
+    modifies = ()
+    raises = {"InvalidDataError": lambda c: z3.And(c.old.raise_exception, z3.Not(accepts(ntt(c.old.self), req(c.old.self), c.old.data)))}
+
+
+@register
+class BGHasNames(_BG):
+    targets = (BG + ".has_names",)
+    params = {"names": NAMELIST}
+    returns = TBool
+    modifies = ()
+
+    def ensures(self, c):
+        return [("value", c.result == _all_elements(c.old.names, ntt(c.old.self)))]
+
+
+@register
+class BGRestrictTo(_BG):
+    """Only the given names remain: as elements, as required names, as defaults."""
+
+    targets = (BG + ".restrict_to",)
+    params = {"names": NAMELIST}
+    raises = {"KeyError": lambda c: z3.Not(_all_elements(c.old.names, ntt(c.old.self)))}
+    loops = {0: LoopSpec(anchor="self._defaults.keys() - names", modifies=("self._defaults",), inv=lambda c, k: _bg_restrict_inv(c, k))}
+
+    def ensures(self, c):
+        g0, g1 = c.old.self, c.new.self
+        out = lambda k: z3.Not(in_list(c.old.names, k))  # noqa: E731
+        return wfg(g1) + [("elements", removed_from_dict(ntt(g1), ntt(g0), out)),
+                          ("required", removed_from_set(req(g1), req(g0), out)),
+                          ("defaults", removed_from_dict(dfl(g1), dfl(g0), out))] + kept(g0, g1, "types", "required", "defaults")
+
+
+def _bg_restrict_inv(c, k):
+    g0, g = c.old.self, c.new.self
+    pos = c.seq.pos
+    gone = lambda y: z3.And(z3.Not(in_list(c.old.names, y)), pos[y] < k)  # noqa: E731
+    return [("defaults", removed_from_dict(dfl(g), dfl(g0), gone)),
+            ("still-bound", z3.BoolVal(g._defaults._Defaults__grammar.ref == g.ref))] + kept(g0, g, "defaults")
+
+
+@register
+class BGRenameElement(_BG):
+    """The element, its requiredness and its default value move to the new name; every other element is untouched."""
+
+    targets = (BG + ".rename_element",)
+    params = {"current_name": TStr, "new_name": TStr}
+    raises = {"KeyError": lambda c: z3.Not(ntt(c.old.self).has(c.old.current_name))}
+
+    def finding_regions(self, c):
+        d = dfl(c.old.self)
+        return {"default-value-is-None": z3.And(d.has(c.old.current_name), d.get(c.old.current_name) == val_none)}
+
+    def ensures(self, c):
+        g0, g1 = c.old.self, c.new.self
+        a, b = c.old.current_name, c.old.new_name
+        t0, t1, r0, r1, d0, d1 = ntt(g0), ntt(g1), req(g0), req(g1), dfl(g0), dfl(g1)
+        k = kq()
+        free = z3.Or(a == b, z3.Not(t0.has(b)))  # renaming onto another existing element overwrites it: only WFG and the frame are specified
+        other = lambda x: z3.And(x != a, x != b)  # noqa: E731
+        return wfg(g1) + [
+            ("elements", z3.ForAll([k], t1.has(k) == z3.Or(z3.And(t0.has(k), k != a), k == b))),
+            ("type-moved", t1.get(b) == t0.get(a)),
+            ("other-types-kept", z3.ForAll([k], z3.Implies(z3.And(t0.has(k), other(k)), t1.get(k) == t0.get(k)))),
+            ("other-required-kept", z3.ForAll([k], z3.Implies(other(k), r1.member[k] == r0.member[k]))),
+            ("other-defaults-kept", z3.ForAll([k], z3.Implies(other(k), z3.And(d1.has(k) == d0.has(k), z3.Implies(d0.has(k), d1.get(k) == d0.get(k)))))),
+            ("requiredness-moved", z3.Implies(free, z3.And(r1.member[b] == r0.member[a], z3.Implies(a != b, z3.Not(r1.member[a]))))),
+            ("default-moved", z3.Implies(free, z3.And(d1.has(b) == d0.has(a), z3.Implies(d0.has(a), d1.get(b) == d0.get(a)), z3.Implies(a != b, z3.Not(d1.has(a)))))),
+        ] + kept(g0, g1, "types", "required", "defaults")
+
+
+@register
+class BGDefaultsSetter(_BG):
+    """The defaults are replaced by the given ones, which must all be bound to element names."""
+
+    targets = (BG + ".defaults",)
+    setter = True
+    params = {"data": DATA}
+    raises = {"KeyError": lambda c: z3.Not(subset_of_keys(c.old.data, ntt(c.old.self)))}
+
+    def ensures(self, c):
+        g0, g1 = c.old.self, c.new.self
+        return wfg(g1) + [("defaults", same_dict(dfl(g1), c.old.data)),
+                          ("own-dictionary", z3.BoolVal(g1._defaults._Defaults__data.ref != c.arg("data")))] + kept(g0, g1, "defaults")
+
+
+@register
+class UpdateNamespaces(Contract):
+    """Namespace maps hold a name or a list of names per key; their content is opaque here."""
+
+    targets = ("gemseo.core.namespaces.update_namespaces",)
+    prop = ("C15",)
+    params = {"namespaces": NSMAP, "other_namespaces": NSMAP}
+    modifies = ("namespaces",)
+    trusted = True
+    description = "assumed: the keys of the other map are added, entries under other keys are unchanged (merged values are opaque)"
+
+    def ensures(self, c):
+        n0, n1, o = c.old.namespaces, c.new.namespaces, c.old.other_namespaces
+        k = kq()
+        return [("keys", z3.ForAll([k], n1.has(k) == z3.Or(n0.has(k), o.has(k)))),
+                ("others-kept", z3.ForAll([k], z3.Implies(z3.And(n0.has(k), z3.Not(o.has(k))), n1.get(k) == n0.get(k))))]
+
+
+@register
+class CreateDataConverter(Contract):
+    targets = (BG + ".__create_data_converter",)
+    prop = ("C15",)
+    self_class = SG
+    params = {"cls": TVal}
+    modifies = ("self",)
+    trusted = True
+    description = "assumed: only sets _data_converter (DataConverterFactory is plugin discovery, out of reach)"
+
+    def ensures(self, c):
+        g0, g1 = c.old.self, c.new.self
+        return own_fields_kept(g0, g1, types=True, converter=False)
+
+
+def namespaces_updated(g0, g1, other):
+    k = kq("k!ns")
+    out = []
+    for f in ("to_namespaced", "from_namespaced"):
+        n0, n1, o = getattr(g0, f), getattr(g1, f), getattr(other, f)
+        out.append((f"namespaces:{f}", z3.And(z3.ForAll([k], n1.has(k) == z3.Or(n0.has(k), o.has(k))),
+                                              z3.ForAll([k], z3.Implies(z3.And(n0.has(k), z3.Not(o.has(k))), n1.get(k) == n0.get(k))))))
+    return out
+
+
+@register
+class BGUpdate(_BG):
+    """Elements, defaults and requiredness of the other grammar are taken over, except for the excluded names;
+    the other grammar is not changed."""
+
+    targets = (BG + ".update",)
+    params = {"grammar": TObj(SG), "excluded_names": NAMES, "merge": TBool}
+    raises = {"ValueError": lambda c: z3.And(ntt(c.old.grammar).n != 0, c.old.merge),
+              "TypeError": lambda c: z3.And(ntt(c.old.grammar).n != 0, z3.Not(c.old.merge), z3.Not(all_types_ok(ntt(c.old.grammar), c.old.excluded_names)))}
+
+    def requires(self, c):
+        return wfg(c.old.self) + [(f"other:{l}", f) for l, f in wfg(c.old.grammar)] + type_facts()
+
+    def ensures(self, c):
+        g0, g1, o = c.old.self, c.new.self, c.old.grammar
+        ex = c.old.excluded_names
+        k = kq()
+        taken = lambda x: z3.Not(ex.member[x])  # noqa: E731
+        d0, d1, do = dfl(g0), dfl(g1), dfl(o)
+        nonempty = ntt(o).n != 0
+        out = wfg(g1) + [(f"other-unchanged:{l}", f) for l, f in kept(o, c.new.grammar)]
+        changed = updated_types(ntt(g0), ntt(g1), ntt(o), ex) + [
+            ("required", added_to_set(req(g1), req(g0), lambda x: z3.And(ntt(o).has(x), req(o).member[x], taken(x)))),
+            ("defaults-keys", z3.ForAll([k], d1.has(k) == z3.Or(d0.has(k), z3.And(do.has(k), taken(k))))),
+            ("defaults-values", z3.ForAll([k], z3.Implies(d1.has(k), d1.get(k) == z3.If(z3.And(do.has(k), taken(k)), do.get(k), d0.get(k))))),
+        ] + namespaces_updated(g0, g1, o)
+        out += [(l, z3.Implies(nonempty, f)) for l, f in changed]
+        out += [(f"empty:{l}", z3.Implies(z3.Not(nonempty), f)) for l, f in kept(g0, g1)]
+        return out + kept(g0, g1, "types", "required", "defaults", "namespaces")
+
+
+@register
+class BGAddNamespace(_BG):
+    """The element is renamed to namespace:name and the two namespace maps record the pair."""
+
+    targets = (BG + ".add_namespace",)
+    params = {"name": TStr, "namespace": TStr}
+    raises = {"KeyError": lambda c: z3.Not(ntt(c.old.self).has(c.old.name)),
+              "ValueError": lambda c: z3.And(ntt(c.old.self).has(c.old.name), _has_separator(c.old.name))}
+
+    def ensures(self, c):
+        from pyvc.models import str_concat
+        from pyvc.values import val_of_str
+
+        g0, g1 = c.old.self, c.new.self
+        a = c.old.name
+        b = str_concat(str_concat(c.old.namespace, TStr.embed(None, ":")), a)
+        t0, t1 = ntt(g0), ntt(g1)
+        k = kq()
+        tn0, tn1, fn0, fn1 = g0.to_namespaced, g1.to_namespaced, g0.from_namespaced, g1.from_namespaced
+        return wfg(g1) + [
+            ("elements", z3.ForAll([k], t1.has(k) == z3.Or(z3.And(t0.has(k), k != a), k == b))),
+            ("type-moved", t1.get(b) == t0.get(a)),
+            ("to-namespaced", z3.And(tn1.has(a), tn1.get(a) == val_of_str(b), z3.ForAll([k], z3.Implies(k != a, z3.And(tn1.has(k) == tn0.has(k), z3.Implies(tn0.has(k), tn1.get(k) == tn0.get(k))))))),
+            ("from-namespaced", z3.And(fn1.has(b), fn1.get(b) == val_of_str(a), z3.ForAll([k], z3.Implies(k != b, z3.And(fn1.has(k) == fn0.has(k), z3.Implies(fn0.has(k), fn1.get(k) == fn0.get(k))))))),
+            ("namespaced-name-is-an-element", t1.has(b)),
+        ] + kept(g0, g1, "types", "required", "defaults", "namespaces")
+
+
+def _has_separator(name):
+    from pyvc.plug_grammars import str_contains
+
+    return str_contains(name, TStr.embed(None, ":"))
+
+
+class TNone(T):
+    name = "None"
+
+    def fresh(self, st, hint):
+        return None
+
+
+@register
+class BGInit(_BG):
+    """A new grammar is empty and well-formed; an empty name is refused."""
+
+    targets = (BG + ".__init__",)
+    params = {"name": TStr}
+    inline_ok = True
+    raises = {"ValueError": lambda c: z3.Not(_nonempty(c.old.name))}
+
+    def requires(self, c):
+        return []
+
+    def ensures(self, c):
+        g1 = c.new.self
+        return wfg(g1) + [("name", g1.name == c.old.name), ("no-element", ntt(g1).n == 0), ("no-required-name", req(g1).n == 0), ("no-default", dfl(g1).n == 0),
+                          ("no-namespace", z3.And(g1.to_namespaced.n == 0, g1.from_namespaced.n == 0))]
+
+
+def _nonempty(s):
+    from pyvc.models import str_nonempty_f
+
+    return str_nonempty_f(s)
+
+
+@register
+class SGInit(_SG):
+    """The elements are the given ones; the required names are the given ones if any (they must be elements), else all elements."""
+
+    targets = (SG + ".__init__",)
+    params = {"name": TStr, "names_to_types": TEither(NTT, TNone()), "required_names": TEither(NAMELIST, TNone())}
+    modifies = PARTS
+    inline_ok = True
+
+    @property
+    def raises(self):
+        def elems(c):
+            return c.old.names_to_types if c.arg("names_to_types") is not None else None
+
+        def bad_types(c):
+            e = elems(c)
+            return z3.BoolVal(False) if e is None else z3.And(e.n != 0, z3.Not(all_types_ok(e)))
+
+        def bad_required(c):
+            if c.arg("required_names") is None:
+                return z3.BoolVal(False)
+            e = elems(c)
+            i = z3.Int("i!br")
+            L = c.old.required_names
+            known = (lambda x: e.has(x)) if e is not None else (lambda x: z3.BoolVal(False))
+            return z3.Not(z3.ForAll([i], z3.Implies(z3.And(0 <= i, i < L.n), known(L.elems[i]))))
+
+        return {"ValueError": lambda c: z3.Not(_nonempty(c.old.name)),
+                "TypeError": lambda c: z3.And(_nonempty(c.old.name), bad_types(c)),
+                "KeyError": lambda c: z3.And(_nonempty(c.old.name), z3.Not(bad_types(c)), bad_required(c))}
+
+    def requires(self, c):
+        return type_facts()
+
+    def ensures(self, c):
+        g1 = c.new.self
+        t1, r1 = ntt(g1), req(g1)
+        k = kq()
+        out = wfg(g1) + [("name", g1.name == c.old.name), ("no-default", dfl(g1).n == 0),
+                         ("no-namespace", z3.And(g1.to_namespaced.n == 0, g1.from_namespaced.n == 0))]
+        if c.arg("names_to_types") is None:
+            out.append(("elements", t1.n == 0))
+        else:
+            e = c.old.names_to_types
+            out += [("elements", z3.ForAll([k], t1.has(k) == e.has(k))), ("types", z3.ForAll([k], z3.Implies(e.has(k), t1.get(k) == stored_type(e.get(k)))))]
+        if c.arg("required_names") is None:
+            out.append(("all-required", z3.ForAll([k], r1.member[k] == t1.has(k))))
+        else:
+            out.append(("required", z3.ForAll([k], r1.member[k] == in_list(c.old.required_names, k))))
+        return out
+
+
+@register
+class BGCopy(_BG):
+    """The copy has the same elements, required names, defaults and namespaces, is itself well-formed and shares no mutable part
+    with the original: editing one never changes the other."""
+
+    targets = (BG + ".__copy__",)
+    returns = TObj(SG)
+    modifies = ()
+
+    def finding_regions(self, c):
+        return {"always": z3.BoolVal(True)}
+
+    def ensures(self, c):
+        g0, r = c.old.self, c.result
+        ind = lambda a, b: z3.BoolVal(a.ref != b.ref)  # noqa: E731
+        return [(f"copy:{l}", f) for l, f in wfg(r)] + [
+            ("same-elements", same_dict(ntt(r), ntt(g0))),
+            ("same-required-names", same_set(req(r), req(g0))),
+            ("same-defaults", same_dict(dfl(r), dfl(g0))),
+            ("same-namespaces", z3.And(same_dict(r.to_namespaced, g0.to_namespaced), same_dict(r.from_namespaced, g0.from_namespaced))),
+            ("same-name", r.name == g0.name),
+            ("independent:elements", ind(r._SimpleGrammar__names_to_types, g0._SimpleGrammar__names_to_types)),
+            ("independent:required-names", z3.BoolVal(r._required_names.ref != g0._required_names.ref and
+                                                      r._required_names._RequiredNames__names.ref != g0._required_names._RequiredNames__names.ref)),
+            ("independent:defaults", z3.BoolVal(r._defaults.ref != g0._defaults.ref and r._defaults._Defaults__data.ref != g0._defaults._Defaults__data.ref)),
+            ("independent:namespaces", z3.BoolVal(r.to_namespaced.ref != g0.to_namespaced.ref and r.from_namespaced.ref != g0.from_namespaced.ref)),
+        ] + [(f"original:{l}", f) for l, f in kept(g0, c.new.self)]
